@@ -111,9 +111,14 @@ def gen_toy(c):
         p = [q for q in mp + op if q['name'] == nme][0]
         lo, hi = p['bounds']
         kind = c.choice(['Uniform', 'LogUniform', 'Gaussian', 'LogGaussian',
-                         'LnUniform'])
+                         'LnUniform', 'CosUniform'])
         if kind == 'Uniform':
             spec = {'kind': kind, 'args': {'bounds': [lo, hi]}}
+        elif kind == 'CosUniform':
+            # a plug-in derived from the built-in Uniform (bounds are angles
+            # in degrees; the toy parameter takes the angle as its value)
+            a0 = c.uniform(0.5, 40)
+            spec = {'kind': kind, 'args': {'bounds': [a0, a0 + c.uniform(5, 45)]}}
         elif kind == 'LnUniform':
             # a plug-in prior written against the public Prior base class
             spec = {'kind': kind, 'args': {'bounds': [math.log(lo),
